@@ -23,7 +23,14 @@ CHECKS = {
  'C09': _c(BOUNDED + ' and enumeration of the closure limit', 'Every small PDA x word x limit in {1,2,3,5,8,(13,1000)}: soundness against an exact saturation model for every limit; completeness exactly when explicit configuration search shows every closure on the way fits the limit.', 'Trusted: mc/oracles/pda.py (saturation vs explicit search cross-checked in the self-test and at run time).', '4/C09'),
  'C10': _c(BOUNDED, 'Every small PDA (incl. F empty / several accepting states, stack symbols and state names colliding with the markers the constructions introduce) through the three normal forms and PDA->CFG: validity, structural promise, bounded language equality with exact references on both sides, input snapshot.', 'Languages compared on all words up to the stated length. Trusted: pda and cfg oracles.', '4/C10'),
  'C11': _c(BOUNDED + ' and enumeration of step budgets', 'Every TM with <= 2 working states / <= 3 tape symbols x word x budget 0..8: verdict and configuration sequence against a Sipser step function; monotonicity of decided verdicts.', 'Head position after an implicit reject is unspecified and not compared. Trusted: mc/oracles/tm.py.', '4/C11'),
+ 'C12': _c(BOUNDED + ' (instances x answers) with independent criterion evaluators', 'Every exercise checker is driven with all small instances x (the right answer, every single-edit mutant, all small answers); the real checker runs with stdout captured; OK must imply the criterion (weakest reading of the exercise) evaluated by oracle code; every quoted counterexample word must be a genuine difference with the right polarity and minimal length on its side.', 'Trusted: the criterion evaluators in mc/props/c12.py and the oracles they use; only OK => criterion is demanded.', '4/C12'),
+ 'C13': _c(BOUNDED + ' through the real generator -> printer -> parser -> checker composition', 'For every reference DFA / NFA / non-degenerate grammar of the spaces the answer is produced by notebooks/make_notebook.apply_command from a temp file exactly as the notebook generator does and handed to the checker call of the template; the verdict must be OK. The 19 shipped with-answers notebooks are executed as additional instances.', 'Instance preconditions (non-degenerate grammar, alphabet without 0/1, non-empty word) are decided by oracle code. PDA/TM/regexp for-language exercises are outside the quantifier.', '4/C13'),
  'C14': _c(BOUNDED + '; language equality decided exactly', 'All pairs of small DFAs through the three products, all small DFAs through complement / reverse / no_prefix / no_extend / remove_unreachable, all partial DFAs through totalisation, each compared exactly with an oracle-built reference construction; finite-language helpers on all 128 languages over {a,b}^<=2 (and all pairs).', 'Trusted: fa oracle.', '4/C14'),
+ 'C15': _c(SCHED + ' with a loop-iteration budget as termination oracle', 'Every small DFA / NFA (incl. epsilon self-loops, cycles, re-converging paths, 4-state epsilon-heavy family) / PDA x word, and every small CNF grammar x generated word x derivation type: the returned run / derivation is validated step by step against the transition relation / the rules; None for rejected words; a result must arrive within the step budget under CPython order and every <= d set-order deviation.', 'PDA runs are demanded only inside the closure premise (limit 12 in this check). Trusted: validators in mc/props/c15.py, fa/pda/cfg oracles.', '4/C15'),
+ 'C16': _c(BOUNDED, 'parse(print(x)) is compared field by field with x for every DFA / NFA / PDA / TM of the spaces (printable epsilon / blank, empty alphabets, empty F); expressions through all three printers with exact language equality and print stability; expressible grammars with == and a field-wise comparison.', 'State names equal to format keywords and epsilon = empty string are not representable in the text formats and outside the space.', '4/C16'),
+ 'C17': _c(BOUNDED + ' (layouts x single-fault corruptions)', 'Known automata are rendered in every well-formed layout (declaration orders, omissible declarations, transitions before/after/interleaved, grouped labels, comments, tabs/CRLF) and must parse to exactly that automaton; every single-fault corruption of the canonical text (12 fault classes, every position) must raise; every object a parser returns is re-validated by oracle code.', 'Trusted: the renderer and fault injector in mc/props/c17.py (what counts as well formed is stated in the evidence assumptions).', '4/C17'),
+ 'C18': _c('explicit-state breadth-first search over call histories of the real functions + bounded exhaustive operand pairs vs reference constructions', 'All operand pairs of the spaces x 5 name schemes x 3 epsilon spellings x default/private identifier generator from the pristine library state, and BFS over all call sequences (depth <= 2 / 3) of union / concatenation / star on pools of NFAs (results join the pool): valid result, exact language vs reference constructions on operand snapshots, fresh new state, operands untouched.', 'Pristine state = module globals, function defaults, class attributes restored from a deep copy taken at import. Trusted: fa oracle.', '4/C18'),
+ 'C19': _c('explicit-state breadth-first search over call histories + bounded exhaustive argument snapshots + enumeration of hash seeds in fresh processes and of the logging switch', 'About 80 operations: (a) argument snapshots before/after on every instance of their catalogs, with logging off and on; (b) BFS over call sequences (depth 2 over all operations, 3 over the core) on a pool of 9 objects: pool unchanged and result equal (language / value / verdict) to the same call on equal arguments in a pristine state; (c) a fixed battery in fresh processes under PYTHONHASHSEED 0..2 (0..15 thorough), digests must agree.', 'Generality over set orders rests on the scheduler runs of C04/C06/C08/C15/C20; hash seeds are a finite enumeration. Which witness a simulator returns is not compared.', '4/C19'),
  'C20': _c(SCHED + ' with a loop-iteration budget as termination oracle', 'All ordered pairs of small DFAs (second operand renamed or with identical names) x both routines x CPython order + every <= d deviation: answer must equal a synchronous-BFS bijection decider and arrive within the step budget.', 'Trusted: fa.iso (cross-checked against brute-force permutation search); termination = result within 20 000 loop iterations.', '4/C20'),
 }
 NOT_YET = {}
